@@ -516,6 +516,17 @@ func builderBody(role string) func(x *harness.X) {
 					rt.Stop()
 				}
 				err = srvChan.SendRequestCommand(ctx, req)
+			} else if q[0] == "p2" {
+				// through the high-level Client's ProcessCommand: the answer comes back as its result
+				pctx, pc := context.WithTimeout(context.Background(), 2*time.Second)
+				var resp *lime.ResponseCommand
+				if resp, err = client.ProcessCommand(pctx, req); err == nil {
+					_ = onResp(pctx, resp, nil)
+				} else {
+					x.Obs("ProcessCommand p2 returned an error")
+					err = nil
+				}
+				pc()
 			} else {
 				err = client.SendRequestCommand(ctx, req)
 			}
